@@ -561,7 +561,12 @@ def fresh_outcome(cfg, op):
     hit = _fresh_memo.get(key)
     if hit is not None:
         return hit
+    # the reference work must not show up in the run's probes / step counts
+    # (whether it is memoised depends on the worker's history)
+    saved = dict(probes.PROBES)
     out = public_outcome(exec_op(new_object(cfg), cfg, op))
+    probes.PROBES.clear()
+    probes.PROBES.update(saved)
     if len(_fresh_memo) > 2000:
         _fresh_memo.clear()
     _fresh_memo[key] = out
@@ -579,6 +584,11 @@ def execute(case):
     P = probes.PROBES
     f = stats["faults"]
     objs = [new_object(cfg) for cfg in case["objs"]]
+    # pristine-interpreter reference: all ops of every 8th history (decided by
+    # the case itself, not by a PRNG), every op that follows a cold restart,
+    # and every op whose same-process comparison is about to be reported
+    pristine_all = env.digest64(json.dumps(case, sort_keys=True)) % 8 == 0
+    after_cold = False
     uses = [0] * len(objs)
     last_sig = [None] * len(objs)
     last_kind = [None] * len(objs)
@@ -592,6 +602,7 @@ def execute(case):
             cold_restart()
             f["cold_restart"] = f.get("cold_restart", 0) + 1
             trace.append(("cold_restart",))
+            after_cold = True
             continue
         if kind == "walk":
             out = run_walk_op(op)
@@ -650,9 +661,20 @@ def execute(case):
                 f["serializer_generator_abandoned"] = f.get("serializer_generator_abandoned", 0) + 1
         # ---- oracle: reused == fresh
         if pub != ref:
-            failure = ("reuse", "op %d (%s on object %d, use #%d): reused object gives %s, a brand-new object gives %s; %s"
-                       % (i, kind, oi, uses[oi], brief(pub, 200), brief(ref, 200), _diff_detail(pub, ref)))
+            pr = _pristine(cfg, op)
+            failure = ("reuse", "op %d (%s on object %d, use #%d): reused object gives %s, a brand-new object gives %s; %s; "
+                       "pristine interpreter agrees with %s"
+                       % (i, kind, oi, uses[oi], brief(pub, 200), brief(ref, 200), _diff_detail(pub, ref),
+                          "the brand-new object" if pr == ref else ("the reused object" if pr == pub else "neither")))
             break
+        if pristine_all or after_cold:
+            pr = _pristine(cfg, op)
+            P["pristine_reference_used"] += 1
+            if pr != pub:
+                failure = ("pristine", "op %d (%s on object %d, use #%d): this process gives %s (reused and brand-new objects "
+                           "agree), a pristine interpreter gives %s; %s"
+                           % (i, kind, oi, uses[oi], brief(pub, 200), brief(pr, 200), _diff_detail(pub, pr)))
+                break
         if out[0] == "ok" and len(out) == 5:
             returned.append((i, cfg["builder"], out[4], out[1]))
     if failure is None:
@@ -677,6 +699,12 @@ def execute(case):
         res["oracle"] = failure[0]
         res["detail"] = failure[1]
     return res
+
+
+def _pristine(cfg, op):
+    from .zygote import ZYGOTE
+    key = json.dumps([cfg, op], sort_keys=True)
+    return ZYGOTE.request(key, {"kind": "obj", "cfg": cfg, "op": op})
 
 
 def _diff_detail(a, b):
@@ -772,7 +800,7 @@ def describe(case):
 def plan(tier):
     if tier == "thorough":
         return [("M1", 400000), ("M2", 600000), ("M3", 40000)], 1500
-    return [("M1", 7000), ("M2", 11000)], 300
+    return [("M1", 7000), ("M2", 11000), ("M3", 1200)], 300
 
 
 RULE = ("one run = one history of 2..12 operations (parse / parseFragment / parse of bytes with restart / serialize / walk / "
@@ -781,7 +809,7 @@ RULE = ("one run = one history of 2..12 operations (parse / parseFragment / pars
         "end-of-history invariant that no earlier result changed; M3: 2-3 simulated caller threads with private objects under the "
         "baton scheduler; non-trivial = some object used at least twice (M1/M2) or at least one pre-emption inside a hot function "
         "(M3); distinct = distinct SHA-1 of the explicit case")
-EXPECTED_PROBES = ["abort_with_table_text_pending", "abort_inside_rawtext", "abort_during_sniffing",
+EXPECTED_PROBES = ["pristine_reference_used", "cold_miss_under_contention", "hot_preemptions", "abort_with_table_text_pending", "abort_inside_rawtext", "abort_during_sniffing",
                    "abort_in_second_pass_after_restart", "handler_cache_full", "fragment_document_alternation",
                    "restart_fired", "abort_with_drop_newline_armed"]
 REACH_NOTE = ("distinct (end-state signature of the previous call on the object [phase, framesetOK, compatMode, table text pending, "
